@@ -28,10 +28,16 @@ def check(cx):
         fn = cx.method(im, 'next')
         g = cx.graph(fn['key'])
         label = cx.label(fn)
+        # the key map is the HashMap field; the outer observer is the field of bare parameter type that receives observer calls
+        MAP = roles.field_where(cx, tag, lambda t, ti: t['k'] == 'adt' and t['p'].endswith('HashMap'), 'key -> group map')
+        params = {'self.' + f for f, t in roles.adt_fields(cx, tag) if F.ty(t)['k'] == 'param'}
+
+        def is_outer(e):
+            return recv_class(e) in params
 
         def ev(n):
             if down_method(n) == 'next':
-                return ('outer',) if recv_class(n['args'][0]).endswith('.observer') else ('group',)
+                return ('outer',) if is_outer(n['args'][0]) else ('group',)
             return None
         bad = lang_check(g, 'outer? group', ev, exact=True, empty_ok=False)
         ok = not bad
@@ -69,7 +75,7 @@ def check(cx):
         res.append(Finding(ID, 'G1', label, ok, msg, fn['span'], wit))
         # G4: a group lives as long as the source: next() never removes entries from the map
         removers = [x for x in g.nodes if x['kind'] == 'call' and x['args'] and x['name'].rsplit('::', 1)[-1] in
-                    ('retain', 'remove', 'remove_entry', 'clear', 'drain', 'extract_if', 'take') and recv_class(x['args'][0]).endswith('.subjects')]
+                    ('retain', 'remove', 'remove_entry', 'clear', 'drain', 'extract_if', 'take') and recv_class(x['args'][0]) == 'self.' + MAP]
         res.append(Finding(ID, 'G4', label, not removers,
                            'groups are never dropped while the source is live' if not removers else
                            'next() removes groups from the key map: a key that recurs is announced a second time and its items are split over two groups; the dropped group never gets its terminal',
@@ -80,7 +86,7 @@ def check(cx):
 
             def ev2(n, meth=meth):
                 if down_method(n) == meth:
-                    return ('outer',) if recv_class(n['args'][0]).endswith('.observer') else ('group',)
+                    return ('outer',) if is_outer(n['args'][0]) else ('group',)
                 if down_method(n) in ('next', 'error', 'complete'):
                     return ('other',)
                 return None
